@@ -1779,6 +1779,7 @@ def normalize(modules) -> Report:
     n2.unroll_constant_loops(modules, known, rep)
     n2.constant_attr_access(modules, rep)
     n2.unroll_small_lists(modules, known, rep)
+    n2.drop_ascii_fast_path(modules, known, rep)
     n2.fold_constant_tests(modules, known, rep)
     seen = set()
     rep.kept = [k for k in rep.kept if not (k in seen or seen.add(k))]
